@@ -32,6 +32,7 @@ type genOpts struct {
 	ExclHeavy    bool // many Guaranteed whole-CPU containers in ordinary namespaces
 	PinAlways    bool // pinCPU/pinMemory always on
 	NoHideHT     bool
+	Anns         []annGen // annotation vocabulary (nil = topology-aware set)
 	Topo         vfkit.TopoOpts
 }
 
@@ -149,7 +150,11 @@ func genPod(t *rapid.T, o genOpts, ctrNames []string) *hcPodSpec {
 	}
 	nann := rapid.SampledFrom([]int{0, 0, 1, 1, 2, 3}).Draw(t, "nann")
 	for i := 0; i < nann; i++ {
-		a := rapid.SampledFrom(taAnnotations).Draw(t, "ann")
+		anns := o.Anns
+		if anns == nil {
+			anns = taAnnotations
+		}
+		a := rapid.SampledFrom(anns).Draw(t, "ann")
 		form := rapid.SampledFrom([]string{"bare", "pod", "container"}).Draw(t, "annForm")
 		ctr := rapid.SampledFrom(ctrNames).Draw(t, "annCtr")
 		p.Annotations[annKey(a.key, form, ctr)] = rapid.SampledFrom(a.values).Draw(t, "annValue")
@@ -287,6 +292,11 @@ func genOps(t *rapid.T, o genOpts, topo *vfkit.Topo, genCfg func(t *rapid.T) *vh
 		ops = append(ops, op)
 	}
 	return ops
+}
+
+func genOpsWith(t *rapid.T, o genOpts, topo *vfkit.Topo, anns []annGen, genCfg func(t *rapid.T) *vhConfig) []hcOp {
+	o.Anns = anns
+	return genOps(t, o, topo, genCfg)
 }
 
 func genTACase(t *rapid.T, o genOpts) *hcCase {
